@@ -21,6 +21,7 @@ EXPLANATION = (
     "non_int_type cast of true division applies if either operand is an int. Also decided: 0/1 shortcuts on an exponent compare the exponent as given (unit aware) and the exponent used is the root-unit magnitude of a dimensionless quantity or the coerced bare number; int/float/complex coercions agree and use the value in no units; the both-zero equality shortcut needs multiplicative units on both sides; in-place conversion primitives (_convert_magnitude, ito*) are called only by in-place forms on their own target (package-wide who-may-call). Decides these clauses on every loop-free "
     "path of the anchored methods; does not decide numerical agreement, NaN/zero element-wise semantics or broadcasting.")
 EXPLANATION += ' Also decided: the memo rules of Quantity.dimensionality (the dimension gate of + - and ordering reads it).'
+EXPLANATION += " Also decided (round 10): the exponent rule also covers powers whose base is a conversion of self to no units (the array branch `self.m_as('') ** <exponent>` of __pow__/__ipow__): the exponent is the root-unit magnitude of a dimensionless quantity or a bare number, never the stored magnitude of a quantity."
 
 ARITH = [("_add_sub", False), ("_iadd_sub", True), ("__floordiv__", False), ("__ifloordiv__", True), ("__rfloordiv__", False),
          ("__mod__", False), ("__imod__", True), ("__rmod__", False), ("__divmod__", False), ("__rdivmod__", False),
@@ -114,7 +115,9 @@ def exponent_rule(ck, ix):
             ck.note(f"{q}: no 0/1 shortcut on the exponent")
         # candidates by role: a power whose base is the units / magnitude of self (directly or through a local that was
         # bound to self or to a conversion of self)
-        field_of_self = lambda e: any(isinstance(x, ast.Attribute) and x.attr in ("_units", "_magnitude") for x in ast.walk(e)) and _derives_from(defs.roots(e), "self")
+        # ... or a conversion of self to no units (the array branch: `self.m_as('') ** <exponent>`, round 10)
+        conv_of_self = lambda e: isinstance(e, ast.Call) and isinstance(e.func, ast.Attribute) and e.func.attr in ("m_as", "to", "to_root_units", "to_base_units", "_convert_magnitude_not_inplace") and norm(e.func.value) == "self"
+        field_of_self = lambda e: (any((isinstance(x, ast.Attribute) and x.attr in ("_units", "_magnitude")) or conv_of_self(x) for x in ast.walk(e))) and _derives_from(defs.roots(e), "self")
         exps = []
         for b in walk_local(fi.node):
             if isinstance(b, ast.BinOp) and isinstance(b.op, ast.Pow) and field_of_self(b.left):
